@@ -227,16 +227,37 @@ def r4_layout(ck, F):
     ag = [(s, rv) for b, s, rv in aggregates(F, A("aligned_buffer")) if b.path == nb.path]
     ck.exact(R, "constructions of EntryBoundAlignedBuffer", len(aggregates(F, A("aligned_buffer"))), 1, F.config)
     eb_align = F.adts[A("entry_bound")].get("align")
-    if al and lay and ag:
+    fields = {f["name"]: f["ty"] for f in F.adts[A("aligned_buffer")]["variants"][0]["fields"]}
+    mode = "len" if fields.get("len") == "usize" else ("layout" if any(t.endswith("alloc::Layout") for t in fields.values()) else None)
+    lay_field = next((n for n, t in fields.items() if t.endswith("alloc::Layout")), None)
+    ck.ob(R, "buffer-representation", mode is not None, f"EntryBoundAlignedBuffer keeps its size as {'`len: usize`' if mode == 'len' else ('the allocation `Layout` itself' if mode == 'layout' else 'an unrecognised set of fields ' + str(fields))}", config=F.config, nontrivial=False)
+    if al and lay and ag and mode:
         la = nb.arg_exprs(lay[0][0])
         size_e, align_e = la[0], la[1]
         s, rv = ag[0]
-        len_e = agg_field_expr(nb, s, rv, "len")
         data_e = agg_field_expr(nb, s, rv, "data")
-        ck.ob(R, "alloc-size-is-stored-len", size_e.ident() == len_e.ident() and size_e.show() == len_e.show(), f"alloc layout size = {size_e.show()} ; stored len = {len_e.show()}", nb, al[0][0])
-        ck.ob(R, "alloc-align", const_val(align_e) == eb_align, f"alloc alignment = {align_e.show()} = align_of::<EntryBound>() = {eb_align}", nb, lay[0][0])
         a0 = nb.arg_exprs(al[0][0])[0]
-        ck.ob(R, "alloc-uses-that-layout", is_call(a0, "Result::<T, E>::unwrap") and a0.strip().a[0].strip().x.get("site") == lay[0][0], "alloc receives Layout::from_size_align(size, align).unwrap()", nb, al[0][0])
+        if mode == "len":
+            len_e = agg_field_expr(nb, s, rv, "len")
+            ck.ob(R, "alloc-size-is-stored-len", size_e.ident() == len_e.ident() and size_e.show() == len_e.show(), f"alloc layout size = {size_e.show()} ; stored len = {len_e.show()}", nb, al[0][0])
+        else:
+            lay_e = agg_field_expr(nb, s, rv, lay_field)
+            ck.ob(R, "alloc-size-is-stored-len", lay_e.strip().ident() == a0.strip().ident(), f"the Layout handed to alloc is the Layout stored in the buffer ({lay_e.show()[:70]})", nb, al[0][0])
+        ck.ob(R, "alloc-align", const_val(align_e) == eb_align, f"alloc alignment = {align_e.show()} = align_of::<EntryBound>() = {eb_align}", nb, lay[0][0])
+        # alloc receives exactly the layout built by that from_size_align, and a failed from_size_align never reaches alloc
+        uses = [x for x in a0.walk() if x.k == "call" and x.x.get("site") == lay[0][0]]
+        st0 = a0.strip()
+        via_unwrap = is_call(a0, "Result::<T, E>::unwrap") and st0.a[0].strip().x.get("site") == lay[0][0]
+        via_payload = False
+        if not via_unwrap and st0.k == "call" and st0.x.get("site") == lay[0][0]:
+            # the Ok payload of the construction (through `?`, .ok(), and_then, let-else): alloc must not be
+            # reachable from the construction's Err arm
+            for bb in sorted(nb.normal_blocks()):
+                if nb.term(bb)["t"] == "switch" and nb.dominates(bb, al[0][0].bb):
+                    e, enum, labels, oth = switch_on(nb, bb)
+                    if e.k == "discr" and e.a[0].strip().k == "call" and e.a[0].strip().x.get("site") == lay[0][0] and "Err" in labels:
+                        via_payload = al[0][0].bb not in (nb.reachable_from(labels["Err"]) | {labels["Err"]})
+        ck.ob(R, "alloc-uses-that-layout", via_unwrap or via_payload, "alloc receives the Layout built by Layout::from_size_align(size, align); a size the Layout type refuses never reaches alloc (unwrap / diverging else-branch)", nb, al[0][0])
         nn = calls(nb, "NonNull::<T>::new")
         ok = len(nn) == 1 and nb.arg_exprs(nn[0][0])[0].strip().x.get("site") == al[0][0]
         pay = unwrap_payload(data_e, "Some")
@@ -255,21 +276,34 @@ def r4_layout(ck, F):
         bad = _wrapping_arith(nb, size_e)
         sz = F.adts[A("entry_bound")].get("size")
         rounded = [x for x in size_e.walk() if x.k == "call" and x.x["path"].rsplit("::", 1)[-1] in ("checked_next_multiple_of", "next_multiple_of", "div_ceil")]
-        okm = bool(rounded) and any(const_val(x.a[1]) == sz and is_arg(x.a[0], "size") for x in rounded)
+        def _from_size(x):
+            x = x.strip()
+            if is_arg(x, "size"):
+                return True
+            return x.k == "call" and x.x["path"].rsplit("::", 1)[-1] == "max" and any(is_arg(y, "size") for y in x.a) and all(is_arg(y, "size") or (const_val(y) or 0) > 0 for y in x.a)
+        okm = bool(rounded) and any(const_val(x.a[1]) == sz and _from_size(x.a[0]) for x in rounded)
         ck.ob("C17-R9", "alloc-size-cannot-wrap", not bad, f"allocation size = {size_e.show()[:90]}: no arithmetic in it can wrap" + (f" — may wrap when overflow checks are off: {bad} (a wrapped size of 0 makes `alloc` undefined behaviour)" if bad else ""), nb, al[0][0])
         ck.ob("C17-R9", "size-rounded-up-to-bound-multiple", okm, f"the requested size is rounded up to a multiple of size_of::<EntryBound>() = {sz}", nb)
     dr = F.body("<sorter::EntryBoundAlignedBuffer as std::ops::Drop>::drop")
     de = calls(dr, "alloc::dealloc")
     dl = calls(dr, "Layout::from_size_align")
-    ok = len(de) == 1 and len(dl) == 1
+    ok = len(de) == 1
     if ok:
-        la = dr.arg_exprs(dl[0][0])
         a = dr.arg_exprs(de[0][0])
-        ok = is_self_field(la[0], "len") and const_val(la[1]) == eb_align and is_call(a[0], "NonNull::<T>::as_ptr") and is_self_field(a[0].strip().a[0], "data") and is_call(a[1], "Result::<T, E>::unwrap") and a[1].strip().a[0].strip().x.get("site") == dl[0][0]
-    ck.ob(R, "dealloc-matches-alloc", ok, "dealloc(self.data, Layout::from_size_align(self.len, align_of::<EntryBound>()).unwrap()) — same size expression source and alignment as the allocation", dr)
+        okp = is_call(a[0], "NonNull::<T>::as_ptr") and is_self_field(a[0].strip().a[0], "data")
+        if mode == "len":
+            ok = len(dl) == 1
+            if ok:
+                la = dr.arg_exprs(dl[0][0])
+                ok = okp and is_self_field(la[0], "len") and const_val(la[1]) == eb_align and is_call(a[1], "Result::<T, E>::unwrap") and a[1].strip().a[0].strip().x.get("site") == dl[0][0]
+        elif mode == "layout":
+            ok = okp and is_self_field(a[1], lay_field) and not dl
+        else:
+            ok = False
+    ck.ob(R, "dealloc-matches-alloc", ok, "dealloc(self.data, <the layout of the allocation>): recomputed from the stored len with the same alignment, or the stored Layout itself", dr)
     others = sorted({b.path for b in F.user_bodies() for s, c, t in b.calls() if callee_name(c) in ("std::alloc::dealloc", "std::alloc::realloc", "std::alloc::alloc_zeroed") or (callee_name(c) == "std::alloc::alloc" and b.path != nb.path)} - {dr.path})
     ck.ob(R, "only-drop-deallocates", not others, f"no other alloc/realloc/dealloc site ({others})", config=F.config)
-    st = field_stores(F, A("aligned_buffer"), "data") + field_stores(F, A("aligned_buffer"), "len")
+    st = field_stores(F, A("aligned_buffer"), "data") + field_stores(F, A("aligned_buffer"), "len") + (field_stores(F, A("aligned_buffer"), lay_field) if lay_field else [])
     ck.exact(R, "stores to data/len after construction", len(st), 0, F.config)
     impls = sorted(i["trait"] for i in F.impls if i.get("self_adt") == A("aligned_buffer") and i.get("trait"))
     ck.ob(R, "not-clone-not-copy", "std::clone::Clone" not in impls and "std::marker::Copy" not in impls and "std::ops::Drop" in impls, f"EntryBoundAlignedBuffer implements {impls} (a Clone/Copy would double-free)", config=F.config)
@@ -345,7 +379,9 @@ def r6_raw_parts(ck, F):
         if ok:
             a = b.arg_exprs(cs[0][0])
             ptr = strip_casts(a[0])
-            ok = is_call(ptr, "NonNull::<T>::as_ptr") and is_self_field(ptr.strip().a[0], "data") and is_self_field(a[1], "len")
+            ln = a[1].strip()
+            ok_len = is_self_field(a[1], "len") or (ln.k == "call" and ln.x["path"].endswith("Layout::size") and ln.a and ln.a[0].strip().k == "field" and ln.a[0].strip().x.get("ty", "").endswith("alloc::Layout") and ln.a[0].strip().a[0].strip().k == "arg")
+            ok = is_call(ptr, "NonNull::<T>::as_ptr") and is_self_field(ptr.strip().a[0], "data") and ok_len
             elem = [x for x in callee_of(b.at(cs[0][0]))["args"] if not x.startswith("'")]
             ok = ok and elem == ["u8"]
         f = F.fns[p]
@@ -431,4 +467,4 @@ def r8_pod(ck, F):
                 tgt = c["args"][-1]
                 src = c["args"][0]
                 ck.ob(R, f"cast-target/{b.path}/{nme.rsplit('::', 1)[-1]}", tgt == A("entry_bound") and src == "u8", f"{nme}::<{', '.join(c['args'])}> reinterprets bytes as EntryBound only", b, s)
-    ck.floor(R, "byte<->EntryBound reinterpretations", n, 4, F.config)
+    ck.floor(R, "byte<->EntryBound reinterpretations", n, 3, F.config)
